@@ -145,6 +145,7 @@ class CoqResult:
     out: str
     err: str
     wall: float
+    rc: int = 0
 
     def eval_lists(self):
         """All ``= [...] : type`` results printed by Eval commands, as flat token lists."""
@@ -207,9 +208,9 @@ def coqc(path: Path, timeout=600, extra=()):
                             "-w", "-notation-overridden,-deprecated-hint-without-locality,-deprecated-instance-without-locality,-ambiguous-paths",
                             *extra, str(path)],
                            capture_output=True, text=True, cwd=path.parent)
-        return CoqResult(r.returncode == 0, r.stdout, r.stderr, time.time() - t0)
+        return CoqResult(r.returncode == 0, r.stdout, r.stderr, time.time() - t0, r.returncode)
     except Exception as e:  # pragma: no cover
-        return CoqResult(False, "", repr(e), time.time() - t0)
+        return CoqResult(False, "", repr(e), time.time() - t0, -1)
 
 
 def run_coq_jobs(pid: str, jobs, timeout=600):
@@ -226,7 +227,14 @@ def run_coq_jobs(pid: str, jobs, timeout=600):
         paths[name] = p
     with ThreadPoolExecutor(max_workers=NPROC) as ex:
         futs = {name: ex.submit(coqc, p, timeout) for name, p in paths.items()}
-        return {name: f.result() for name, f in futs.items()}
+        res = {name: f.result() for name, f in futs.items()}
+    # a job that was stopped by the time limit or killed (a loaded machine, memory pressure) says nothing about the
+    # model: it is run again, alone and with a longer limit, before it may count as a failure
+    again = [n for n, r in res.items() if not r.ok and (r.rc in (124, 137, -9, -15) or not (r.err or r.out).strip())]
+    for n in again:
+        log("[%s] coq job %s did not finish (rc %s after %.0fs): running it again on its own" % (pid, n, res[n].rc, res[n].wall))
+        res[n] = coqc(paths[n], timeout * 3)
+    return res
 
 
 def prove_lemmas(pid, header, lemmas, chunk=12, timeout=600, tag="lem"):
